@@ -21,6 +21,8 @@ ASSUMPTIONS = [
     "within int64 for years 0..9999. Duration saturation of Time.Sub is modelled (time_sub) and proved not to change the sign",
     "skip()'s space-collapsing branch and the AM/PM, year-day and zone branches of parse are not transcribed: not reachable "
     "for this layout (no space, no such elements)",
+    "host time zone: the main batch runs in the zone of the checking host; smaller batches run in child processes with TZ set to zones "
+    "west and east of UTC (needs /usr/share/zoneinfo; skipped with a note otherwise). The model has no zone: a ...Z expiry is UTC",
     "the pipeline-level part of C06 (expiry checked before links are trusted / inspections run, both entry points) is "
     "props/C06_pipeline.v, not this file",
 ]
@@ -61,22 +63,33 @@ def coq_str(b):
     return V.coq_str(b)
 
 
-def correspondence(ctx):
-    n = 250000 if ctx.tier == 'quick' else 8000000
-    nsample = 240 if ctx.tier == 'quick' else 1500
-    V.sh([os.path.join(V.ROOT, 'tools', 'build_extract.sh'), 'expiry'], check=True)
-    binp = ctx.go_build('c06')
-    tsv = os.path.join(ctx.dir, 'cases.tsv')
-    rc, o = ctx.run([binp, 'gen', tsv, str(n), str(NSHARD)], timeout=1500)
+ZONES = ['Etc/GMT+8', 'Etc/GMT-9', 'America/Los_Angeles', 'Asia/Kolkata']   # west and east of UTC (needs /usr/share/zoneinfo)
+
+
+class State:
+    def __init__(self):
+        self.distinct = set()
+        self.ambiguous = 0
+        self.accepted = 0
+        self.rejected = 0
+        self.samples = {}
+
+
+def eval_batch(ctx, binp, tsv, n, corr, st, nsample, tz=None, idbase=0):
+    """one run of the harness (optionally in a child process with TZ=tz) + the extracted model on its inputs"""
+    cmd = [binp, 'gen', tsv, str(n), str(NSHARD)] + (['zone'] if tz else [])
+    rc, o = ctx.run(cmd, timeout=1500, env={'TZ': tz} if tz else None)
     if rc != 0:
         raise V.BuildError('c06 harness failed: ' + o[-2000:])
+    if tz:
+        zname, zoff, zloc = open(tsv + '.zone').read().split()
+        if zloc != tz:
+            ctx.notes.append('zone batch TZ=%s skipped: the Go runtime did not load the zone (got %s)' % (tz, zloc))
+            return 0
+        corr.extra.setdefault('zone_batches', {})[tz] = {'utc_offset_s': int(zoff), 'cases': 0}
+    pre = ('tz=%s/' % tz) if tz else ''
     mlines = model_lines(tsv)
     END = object()
-    corr = V.Corr()
-    distinct = set()
-    ambiguous = 0
-    accepted = rejected = 0
-    per_class_sample = {}
     with open(tsv) as f:
         k = -1
         for k, line in enumerate(f):
@@ -86,36 +99,65 @@ def correspondence(ctx):
                 raise V.BuildError('model output shorter than case file')
             mf = ml.split(' ')
             mparse, mlo, mhi = ' '.join(mf[:-2]), mf[-2], mf[-1]
+            klass = pre + klass
             corr.distribution[klass] = corr.distribution.get(klass, 0) + 1
-            case = {'id': int(cid), 'klass': klass, 'input': {'hex': hx, 'text': unhex(hx).decode('utf-8', 'replace'),
-                                                                 'now_lo_ns': lo, 'now_hi_ns': hi}}
+            case = {'id': idbase + int(cid), 'klass': klass,
+                    'input': {'hex': hx, 'text': unhex(hx).decode('utf-8', 'replace'), 'now_lo_ns': lo, 'now_hi_ns': hi}}
+            if tz:
+                case['input']['tz'] = tz
             # (1) instant: time.Parse(ISO8601DateSchema, s) vs parse_expiry s  (no clock involved)
             if parse != mparse:
                 corr.disagreements.append({'klass': klass, 'case': case, 'impl': 'parse=' + parse, 'model': 'parse=' + mparse})
-            # (2) property oracle on the verdict of VerifyLayoutExpiration
+            # (2) property oracle on the verdict of VerifyLayoutExpiration (the same in every host zone:
+            #     the expiry is a UTC timestamp)
             if impl == 'P' or (oracle == 'A' and impl != 'O') or (oracle == 'R' and impl != 'E'):
                 what = {'A': 'rejected although a valid plain UTC timestamp more than 2 s in the future',
                         'R': 'accepted although expired by more than 2 s or not a well-formed UTC timestamp',
                         '-': 'panic'}[oracle if impl != 'P' else '-']
+                if tz:
+                    what += ' (host zone TZ=%s)' % tz
                 corr.violations.append({'klass': klass, 'case': case, 'impl': impl, 'expected': {'A': 'O', 'R': 'E'}.get(oracle, 'O|E'),
                                         'what': 'VerifyLayoutExpiration: ' + what})
             # (3) verdict vs model at both ends of the clock bracket
             if mlo != mhi:
-                ambiguous += 1
+                st.ambiguous += 1
             elif impl != mlo:
                 corr.disagreements.append({'klass': klass, 'case': case, 'impl': impl, 'model': mlo})
             else:
-                distinct.add(hash(hx))
+                st.distinct.add(hash(pre + hx))
                 if impl == 'O':
-                    accepted += 1
+                    st.accepted += 1
                 else:
-                    rejected += 1
-                lst = per_class_sample.setdefault(klass + impl, [])
-                if len(lst) < nsample:
-                    lst.append((int(cid), hx, lo, hi, impl, parse))
+                    st.rejected += 1
+                if not tz:
+                    lst = st.samples.setdefault(klass + impl, [])
+                    if len(lst) < nsample:
+                        lst.append((int(cid), hx, lo, hi, impl, parse))
         if next(mlines, END) is not END:
             raise V.BuildError('model output longer than the case file (%d lines)' % (k + 1))
-        corr.evaluations = k + 1
+    if tz:
+        corr.extra['zone_batches'][tz]['cases'] = k + 1
+    return k + 1
+
+
+def correspondence(ctx):
+    n = 250000 if ctx.tier == 'quick' else 8000000
+    nz = 12000 if ctx.tier == 'quick' else 300000
+    nsample = 240 if ctx.tier == 'quick' else 1500
+    V.sh([os.path.join(V.ROOT, 'tools', 'build_extract.sh'), 'expiry'], check=True)
+    binp = ctx.go_build('c06')
+    corr = V.Corr()
+    st = State()
+    corr.evaluations = eval_batch(ctx, binp, os.path.join(ctx.dir, 'cases.tsv'), n, corr, st, nsample)
+    # the same harness in child processes whose local zone is west / east of UTC: the verdict must not
+    # depend on the host zone
+    for zi, tz in enumerate(ZONES):
+        if not os.path.exists(os.path.join('/usr/share/zoneinfo', tz)):
+            ctx.notes.append('zone batch TZ=%s skipped: no tzdata' % tz)
+            continue
+        corr.evaluations += eval_batch(ctx, binp, os.path.join(ctx.dir, 'cases_tz%d.tsv' % zi), nz, corr, st, nsample,
+                                       tz=tz, idbase=(zi + 1) * 1000000000)
+    distinct, ambiguous, accepted, rejected, per_class_sample = st.distinct, st.ambiguous, st.accepted, st.rejected, st.samples
     # drop oracle contradictions from the disagreement list (they already carry a concrete input)
     bad = set(v['case']['id'] for v in corr.violations)
     corr.disagreements = [d for d in corr.disagreements if d['case']['id'] not in bad]
@@ -140,8 +182,13 @@ def correspondence(ctx):
         v = {'O': 'OK', 'E': 'ERR'}[impl]
         obs = v + v + ' ' + (parse[2:] if parse.startswith('S ') else 'N')
         triples.append((cid, term, obs))
+    deferred = []   # build problems of the secondary evaluations: must not hide concrete failing inputs found above
+    mm = {}
     if triples:
-        mm = ctx.eval_cases_v(triples, ['model.Expiry'], tag='m')
+        try:
+            mm = ctx.eval_cases_v(triples, ['model.Expiry'], tag='m')
+        except V.BuildError as e:
+            deferred.append('vm_compute sample: ' + str(e)[:600])
         byid = {t[0]: t for t in triples}
         for i, obs in mm.items():
             corr.disagreements.append({'klass': 'vm_compute', 'case': {'id': i, 'klass': 'vm_compute', 'input': {'coq_term': byid[i][1]}},
@@ -155,14 +202,23 @@ def correspondence(ctx):
                  "swaps/truncations at every position, lower-case t/z, zone suffixes, 29 other layouts (RFC1123, RFC3339, date only ...), "
                  "Unix numbers, random bytes, non-ASCII digits, one-digit hour, empty; plus a fixed corpus; thorough tier adds the enumeration of "
                  "02-29 / 03-01 / 12-31 for every year 0000-9999, months 00-13 x days 00-32 for 126 years, and h 0-25 x m 0-61 x s 0-61. "
+                 "ZONE BATCHES: the harness re-run as child processes with TZ=Etc/GMT+8, Etc/GMT-9, America/Los_Angeles, Asia/Kolkata "
+                 "(70% instants within +-14 h of now, 30% the general mix), same oracle and model: the verdict must not depend on the host zone. "
                  "non-trivial = every case whose verdict does not depend on the clock reading inside the widened bracket; distinct = distinct strings")
     # pipeline level: expired / undated layouts in otherwise accepting supply chains, both wrappers and both
     # entry points; no inspection may run (harness/e2e, focus c06; theorems in props/C06_pipeline.v)
     n = 40 if ctx.tier == 'quick' else 400
-    corr = e2e.run_focus(ctx, 'c06', n, corr=corr)
+    try:
+        corr = e2e.run_focus(ctx, 'c06', n, corr=corr)
+    except V.BuildError as e:
+        deferred.append('pipeline level (e2e): ' + str(e)[:600])
     corr.rule += ("; PIPELINE LEVEL: %d generated supply chains whose only defect is the expiry (expired long ago / 3 s ago, garbage, empty, "
                   "zone offset, date only, lower case; valid: +1 h, year 9999, fractional second) with logging inspections: verdict, summary "
                   "and inspections executed compared with the pipeline model" % n)
+    if deferred:
+        if not corr.violations:
+            raise V.BuildError('; '.join(deferred))
+        ctx.notes += ['could not run: ' + d for d in deferred]
     return corr
 
 
@@ -172,7 +228,8 @@ def replay(ctx, case):
     binp = ctx.go_build('c06')
     p = os.path.join(ctx.dir, 'replay_case.json')
     json.dump(case.get('case', case), open(p, 'w'))
-    rc, o = ctx.run([binp, 'replay', p])
+    tz = ((case.get('case', case).get('input')) or {}).get('tz') or (case.get('input') or {}).get('tz')
+    rc, o = ctx.run([binp, 'replay', p], env={'TZ': tz} if tz else None)
     print(o)
     V.sh([os.path.join(V.ROOT, 'tools', 'build_extract.sh'), 'expiry'], check=True)
     for line in o.split('\n'):
